@@ -1,6 +1,7 @@
 package graph
 
 import (
+	"strconv"
 	"encoding/json"
 	"strings"
 
@@ -106,7 +107,21 @@ func Harness_C04_deferFaults() {
 		}
 	}
 	zzsym.Assert(c13Canon(tree) == c13Canon(wantTree), "only the failing position (and its non-null ancestors up to the deferred group's object) is null")
-	zzsym.Assert(sameErrors(got.errs, want.Errors), "exactly one error per failure, at the failing path")
+	// one error per failure; a deferred group whose object was removed from the response by null
+	// propagation is not executed, so the reference's errors below that object may be absent
+	cnt := map[string]int{}
+	for _, e := range scalarListIdx(want.Errors) {
+		cnt[e]++
+	}
+	for _, e := range scalarListIdx(got.errs) {
+		cnt[e]--
+		zzsym.Assert(cnt[e] >= 0, "exactly one error per failure, at the failing path (no extra error)")
+	}
+	for e, n := range cnt {
+		if n > 0 {
+			zzsym.Assert(c04UnderNull(wantTree, e), "exactly one error per failure, at the failing path (no error lost)")
+		}
+	}
 	zzsym.Assert(w.recovers == w.raised, "the recover hook runs exactly once per panic")
 	if w.raised > 0 {
 		zzsym.Reach("c04.defer.panic")
@@ -155,3 +170,30 @@ func Setup_C04_subscription() { probeSetup() }
 // resolving a field of one event: only that position of that event fails, the
 // stream goes on, recover hook once per panic.
 func Harness_C04_subscription() { subscriptionRun(true, 1) }
+
+// c04UnderNull: some proper prefix of the response path p ("me.friends[1].id") is null in tree.
+func c04UnderNull(tree any, p string) bool {
+	cur := tree
+	for _, seg := range strings.Split(p, ".") {
+		name, idx := seg, ""
+		if k := strings.IndexByte(seg, '['); k >= 0 {
+			name, idx = seg[:k], seg[k:]
+		}
+		m, ok := cur.(map[string]any)
+		if !ok {
+			return cur == nil
+		}
+		cur = m[name]
+		for idx != "" {
+			k := strings.IndexByte(idx, ']')
+			n, _ := strconv.Atoi(idx[1:k])
+			idx = idx[k+1:]
+			l, ok := cur.([]any)
+			if !ok || n >= len(l) {
+				return cur == nil
+			}
+			cur = l[n]
+		}
+	}
+	return false
+}
